@@ -627,6 +627,9 @@ def _node_representer(dumper, node):
                     return dumper.represent_scalar(tag, data._dyn_base(data), style='"')
                 with dumper.force_unquoted():
                     if isinstance(data, ConfigScalar):
+                        if isinstance(data, float):
+                            # repr() of a float is Python syntax (1e-07, inf, nan) which YAML reads back as a string: use the YAML spelling
+                            return dumper.represent_scalar(tag, dumper.represent_float(data._dyn_base(data)).value)
                         return dumper.represent_scalar(tag, repr(data._dyn_base(data)))
                     return dumper.represent_scalar(tag, str(data))
             else:
